@@ -60,31 +60,47 @@ class MotionGuard(paths.Client):
         self.extra_true = extra_true
         self.at = {}
         self.paths_ = {}
-        # loops whose body performs a motion check: candidates are re-drawn per iteration => the fact dies at the header
-        self.kill = set()
-        for n in fn.walk():
-            if n['k'] in ('WhileStmt', 'ForStmt', 'DoStmt', 'CXXForRangeStmt') and n.get('body'):
-                if any(is_motion_check(c, wrappers) for c in fn.walk(n['body'])):
-                    hdr = n.get('cond') if n['k'] != 'CXXForRangeStmt' else n.get('cond')
-                    if hdr:
-                        self.kill.update(x['id'] for x in fn.walk(hdr))
-                    if n['k'] == 'DoStmt' and n.get('body'):
-                        # a do-loop is entered at its body: kill at the first statement of the body
-                        b = fn.nodes[n['body']]
-                        first = b['ch'][0] if b['k'] == 'CompoundStmt' and b['ch'] else n['body']
-                        self.kill.add(('first', first))
+        self.relevant, self.relevant_preds = verdict_relevance(
+            fn, lambda n: n.get('callee') is not None and (is_motion_check(n, wrappers) or n['callee'] in extra_true))
+        # loops whose body performs a motion check draw a new candidate per iteration: facts established *inside* such a
+        # loop die at its header; facts established before the loop was entered survive (they cover e.g. "the parent is
+        # the node whose motion was checked before the neighbourhood loop")
+        self.loop_of = {}      # node id -> innermost check-loop id containing it
+        self.header = {}       # header node id -> loop id
+        self.inner = {}        # loop id -> set of loop ids nested in it (incl. itself)
+        loops = [n for n in fn.walk() if n['k'] in ('WhileStmt', 'ForStmt', 'DoStmt', 'CXXForRangeStmt') and n.get('body') and
+                 any(is_motion_check(c, wrappers) for c in fn.walk(n['id']))]
+        for lp in loops:
+            self.inner[lp['id']] = {lp['id']}
+            for x in fn.walk(lp['id']):
+                self.loop_of[x['id']] = lp['id']      # later (inner) loops overwrite: walk is pre-order
+            if lp['k'] == 'DoStmt':
+                b = fn.nodes[lp['body']]
+                first = b['ch'][0] if b['k'] == 'CompoundStmt' and b['ch'] else lp['body']
+                self.header[first] = lp['id']
+            elif lp.get('cond'):
+                for x in fn.walk(lp['cond']):
+                    self.header[x['id']] = lp['id']
+        for lp in loops:
+            for a in fn.ancestors(lp['id']):
+                if a['id'] in self.inner:
+                    self.inner[a['id']].add(lp['id'])
 
     def init(self, fn):
-        return False
+        return frozenset()
+
+    def tag(self, node):
+        return self.loop_of.get(node.get('id'), 0)
 
     def on_node(self, fn, node, auto, ctx):
         nid = node.get('id')
-        if nid in self.kill:
-            auto = False
+        if nid in self.header:
+            dead = self.inner[self.header[nid]]
+            auto = frozenset(t for t in auto if t not in dead)
         if node.get('callee') is not None and is_motion_check(node, self.wrappers):
             a = args(fn, node)
             if len(a) >= 3 and node['callee'] in CHECK_CALLEES:
-                auto = True  # validated-prefix contract of the 3-argument form
+                auto = auto | {self.tag(node)}  # validated-prefix contract of the 3-argument form
         if self.interest is not None and nid is not None:
             k = self.interest(fn, node)
             if k is not None:
@@ -93,9 +109,20 @@ class MotionGuard(paths.Client):
                     self.paths_[k] = ctx.path()
         return auto
 
+    def _is_ok(self, node, value):
+        return value is True and node.get('callee') is not None and (is_motion_check(node, self.wrappers) or node['callee'] in self.extra_true)
+
     def learn(self, fn, node, value, auto, ctx):
-        if value is True and node.get('callee') is not None and (is_motion_check(node, self.wrappers) or node['callee'] in self.extra_true):
-            return True
+        if self._is_ok(node, value):
+            return auto | {self.tag(node)}
+        if node.get('k') == 'Either':
+            tags = []
+            for alt in node['alts']:
+                hit = [self.tag(n) for (n, v) in alt if self._is_ok(n, v)]
+                if not hit:
+                    return auto
+                tags.append(hit[0])
+            return auto | {tags[0]}
         return auto
 
 
@@ -217,6 +244,38 @@ def relevance(fn, is_site, rounds=2):
                     for x in fn.walk(n['ch'][1]):
                         preds.add(fn.fp(x['id']))
         rel |= add
+    return rel, preds
+
+
+def verdict_relevance(fn, is_check):
+    """variables that carry a check verdict (their definition contains a check call, to a fixpoint) and everything
+    tested together with them or with a check call in one condition"""
+    v0 = set()
+    for _ in range(3):
+        for n in fn.walk():
+            rhs = []
+            if n['k'] == 'DeclStmt':
+                rhs = [('%s#%d' % (d['name'], d['did']), d['init']) for d in n.get('decls', []) if d.get('init')]
+            elif n['k'] in ('BinaryOperator', 'CompoundAssignOperator') and n.get('op') in ('=', '|=', '&='):
+                t = set()
+                _vars_in(fn, n['ch'][0], t)
+                rhs = [(k, n['ch'][1]) for k in t]
+            for (k, r) in rhs:
+                ment = set()
+                _vars_in(fn, r, ment)
+                if any(is_check(x) for x in fn.walk(r)) or (ment & v0):
+                    v0.add(k)
+    rel = set(v0)
+    preds = set()
+    for n in fn.walk():
+        c = n.get('cond')
+        if c and n['k'] in ('IfStmt', 'WhileStmt', 'ForStmt', 'DoStmt', 'ConditionalOperator'):
+            ment = set()
+            _vars_in(fn, c, ment)
+            if any(is_check(x) for x in fn.walk(c)) or (ment & v0):
+                rel |= ment
+                for x in fn.walk(c):
+                    preds.add(fn.fp(x['id']))
     return rel, preds
 
 
